@@ -172,9 +172,11 @@ def apalache_jobs(tier):
 
 REFINEMENTS = {
     "quick": [("MC_WriterAdmissionRef", "MC_WriterAdmissionRef_quick.cfg"),
+              ("MC_WriterAdmissionRef", "MC_WriterAdmissionRef_byid.cfg"),      # readers opening by id / by initial id
               ("MC_WriterAdmissionAbs", "MC_WriterAdmissionAbs_quick.cfg"),
               ("MC_VersionedZoneRef", "MC_VersionedZoneRef_quick.cfg")],
     "thorough": [("MC_WriterAdmissionRef", "MC_WriterAdmissionRef_quick.cfg"),
+                 ("MC_WriterAdmissionRef", "MC_WriterAdmissionRef_byid.cfg"),
                  ("MC_WriterAdmissionRef", "MC_WriterAdmissionRef_quick2.cfg"),
                  ("MC_WriterAdmissionRef", "MC_WriterAdmissionRef_thorough.cfg"),
                  ("MC_WriterAdmissionRef", "MC_WriterAdmissionRef_thorough3.cfg"),
@@ -223,13 +225,19 @@ def prove_all(ctx, specdir, tier, refinements=True, use_fp=None):
             shutil.copy(os.path.join(d, fn), wd)
         fp = fp_file(specdir, m) if use_fp and os.path.exists(fp_file(specdir, m)) else None
         mods.append((wd, m, fp))
-    with cf.ThreadPoolExecutor(max_workers=5) as ex:
+    with cf.ThreadPoolExecutor(max_workers=8) as ex:
         fut_t = [ex.submit(run_tlapm, wd, m, threads, fp) for (wd, m, fp) in mods]
         fut_a = [ex.submit(run_apalache, d, mod, tag, args, exp) for (mod, tag, args, exp) in apalache_jobs(tier)]
+        fut_m = []
         if refinements:
             for mod, cfg in REFINEMENTS[tier]:
                 path = os.path.join(specdir, mod + ".tla")
-                ctx.model(path, os.path.join(specdir, cfg), workers=1 if tier == "quick" else 8, timeout=7200)
+                if tier == "quick":     # small models, one worker (one throttle slot) each, side by side
+                    fut_m.append(ex.submit(ctx.model, path, os.path.join(specdir, cfg), workers=1, timeout=7200))
+                else:
+                    ctx.model(path, os.path.join(specdir, cfg), workers=8, timeout=7200)
+        for f in fut_m:
+            f.result()
         tl = [f.result() for f in fut_t]
         ap = [f.result() for f in fut_a]
     return tl, ap
